@@ -761,7 +761,17 @@ func Gen(seed uint64) *Scen {
 		}
 	}
 	if n >= 6 && r.P(300) {
-		s.NoFile = 16 + r.Intn(8)
+		// (not together with inherited pipes, which occupy descriptors of their own: the limit must
+		// leave the runtime its handful of descriptors whatever the scenario)
+		inherited := false
+		for _, f := range s.Files {
+			if f.State == StDevFd || f.State == StFifo {
+				inherited = true
+			}
+		}
+		if !inherited {
+			s.NoFile = 24 + r.Intn(8)
+		}
 	}
 	if r.P(150) {
 		s.StdinFile = true
